@@ -44,6 +44,10 @@ def pumps(ctx, n):
         out.append((o1 + o2) * (n // 2) + "x" + (c2 + c1) * (n // 2))
     for d in DIRECTIVE_OPEN:
         out.append(d * min(n, 60) + "x\n")
+    # an opener that is never closed, followed by a run of one short unit (label / destination / title / tag scanners)
+    for pre in ("[", "![", "[^", "*[", "[x]: ", "[x]: /u \"", "<", "<a ", "[a](", "[a](/u \"", "[a][", "`", "$", "|"):
+        for unit in ("\\a", "\\", "\\]", "a ", "&", "\\\\", "a=b\t", "\n", "'"):
+            out.append(pre + unit * n)
     # indentation ladders (each line one level deeper) and bare-marker ladders
     for mk in ("-", "- a", "1.", "1. a", ">", "> a", "*", "+ a", ":   t", "- [ ] a"):
         out.append("".join("  " * i + mk + "\n" for i in range(n)))
